@@ -192,7 +192,8 @@ def vocabulary():
 VALID = {
     "Ace": ["10 permit tcp host 10.0.0.1 eq 179 10.0.0.0 0.0.0.3 eq 80 443 log", "permit ip any any",
             "deny udp 10.0.0.0/24 gt 1023 any range 10 20", "permit icmp object-group A addrgroup B",
-            "permit host 1.1.1.1", "deny 10.0.0.0 0.0.0.255 log", "permit tcp any any established"],
+            "permit host 1.1.1.1", "deny 10.0.0.0 0.0.0.255 log", "permit tcp any any established",
+            "permit tcp any range 80 80 any range www 80", "permit udp any eq 53 53 any neq 7 7", "permit 255 any any fragments"],
     "Remark": ["remark text", "10 remark = H1, text"],
     "AceGroup": ["remark x\npermit ip any any\n deny tcp any any eq 80", "10 permit icmp any any\n20 deny ip any any"],
     "Acl": ["ip access-list extended A\n 10 remark x\n 20 permit ip any any\n 30 deny tcp any any eq 80 log",
@@ -202,7 +203,7 @@ VALID = {
     "AddressAg": ["host 10.0.0.1", "10.0.0.0 255.255.255.0", "10 10.0.0.0/24", "group-object NAME", "20 10.0.0.0 0.0.0.255"],
     "AddrGroup": ["object-group network A\n host 10.0.0.1\n 10.0.0.0 255.255.255.0\n description d",
                   "object-group ip address B\n 10 host 1.1.1.1\n 20 10.0.0.0/24"],
-    "Port": ["eq www 443", "neq 1", "range 1 3", "lt 5", "gt 65534"],
+    "Port": ["eq www 443", "neq 1", "range 1 3", "lt 5", "gt 65534", "range 7 7", "range www 80", "eq 80 80", "lt 1", "gt 65535"],
     "Protocol": ["tcp", "0", "255", "ahp"],
     "Option": ["ack log", "dscp ef", "established"],
     "Wildcard": ["10.0.0.0 0.0.0.3", "1.2.3.4 0.255.0.255"],
@@ -220,12 +221,14 @@ def soup_st(draw, tier):
     target = draw(st.sampled_from(TARGETS))
     platform = draw(st.sampled_from(["ios", "ios", "nxos", "nxos", "asa"]))
     vocab = vocabulary()
-    mode = draw(st.sampled_from(["soup", "soup", "mutate", "mutate", "mutate", "blank", "printable"]))
+    mode = draw(st.sampled_from(["soup", "soup", "mutate", "mutate", "mutate", "valid", "blank", "printable"]))
     multiline = target in ("AceGroup", "Acl", "AddrGroup", "acls", "aces", "addrgroups")
     word = st.one_of(st.sampled_from(vocab), st.sampled_from(vocab), st.integers(-1, 70000).map(str),
                      st.text(alphabet=G.REMARK_ALPHABET + " \t", min_size=0, max_size=6))
     if mode == "blank":
         text = draw(st.sampled_from(["", " ", "\n", "\t", " \n \n", "\n\n"]))
+    elif mode == "valid":
+        text = draw(st.sampled_from(VALID[target]))
     elif mode == "printable":
         text = draw(st.text(alphabet=st.characters(min_codepoint=9, max_codepoint=126), max_size=60))
     elif mode == "soup":
